@@ -5,6 +5,7 @@ from __future__ import absolute_import, print_function, division
 import io
 import json
 import inspect
+from itertools import islice, chain
 from json.encoder import JSONEncoder
 from os import unlink
 from tempfile import NamedTemporaryFile
@@ -282,7 +283,10 @@ def iterdicts(dicts, header, sample, missing):
     if header is None:
         # discover fields
         header = list()
-        peek, it = iterpeek(it, sample)
+        # N.B., don't use iterpeek here, which returns the item itself (not a
+        # list) when asked to peek a single item
+        peek = list(islice(it, sample))
+        it = chain(peek, it)
         for o in peek:
             if hasattr(o, 'keys'):
                 header += [k for k in o.keys() if k not in header]
